@@ -209,7 +209,28 @@ func families(run *vk.Run) []*family {
 		}
 		return nil
 	}}, "query")
-	return []*family{fc, fa}
+	// list shapes: protected fields below a list of lists / non-null wrappers,
+	// once with everything in one subgraph besides the owners (the protected
+	// field is NOT the root field of a fetch) and once behind an entity jump
+	sh := fedlab.SShapes()
+	fs := &family{name: "S-shapes", s: sh, u: fedlab.SShapesUniverse(sh), schema: mustSchema(sh.SDL()),
+		protected: [][]string{{"Cell.secret"}, {"Owner.name"}, {"Cell.tags"}, {"Cell.owner"}, {"Query.grid"}}}
+	fs.layouts = []*fedlab.Layout{
+		fedlab.ByType(sh, 2, func(r fedlab.FieldRef) int {
+			if r.Type == "Owner" {
+				return 1
+			}
+			return 0
+		}, "owners-remote"),
+		fedlab.ByType(sh, 2, func(r fedlab.FieldRef) int {
+			if r.Type == "Owner" || r.Field == "secret" || r.Field == "tags" {
+				return 1
+			}
+			return 0
+		}, "secret-remote"),
+	}
+	fs.ops = fedlab.GenOps(fedlab.GenConfig{Schema: fs.schema, Widths: vk.Pick(run, []int{1, 2, 1}, []int{1, 2, 2})}, "query")
+	return []*family{fc, fa, fs}
 }
 
 type fail struct{ clause, site, detail string }
